@@ -459,6 +459,13 @@ func (g *Gen) Spec() *Spec {
 		if g.R.Chance(1, 5) && i > 0 {
 			sc = &Schema{AllOf: []*Schema{{Ref: names[g.R.Intn(i)]}, g.Object(1, names, true)}}
 			g.hit("def:allOf")
+			if g.R.Chance(1, 2) {
+				// the other common spelling: the base in allOf, the own properties beside it
+				own := g.Object(1, names, true)
+				own.AllOf = []*Schema{{Ref: sc.AllOf[0].Ref}}
+				sc = own
+				g.hit("def:allOf-beside-properties")
+			}
 		} else if g.R.Chance(1, 6) {
 			// recursive tree through an array property
 			sc = &Schema{Type: []string{"object"}, Props: []Prop{{Name: "kids", Schema: &Schema{Type: []string{"array"}, Items: &Schema{Ref: n}}}, {Name: "name", Schema: &Schema{Type: []string{"string"}}}}}
